@@ -326,3 +326,22 @@ reg(
      "the Auto choice is compared with Never only when NO_COLOR / CLICOLOR / CLICOLOR_FORCE are unset in the monitor process (the driver clears them); the environment-dependent part of Auto is C09's subject"],
     simple("c08"),
 )
+
+
+from . import c09 as _c09  # noqa: E402
+
+reg(
+    "C09",
+    "Colour auto-detection follows the documented precedence for every environment",
+    "exploration",
+    "cases = (global choice, NO_COLOR, CLICOLOR_FORCE, CLICOLOR, TERM, CI, stream kind) tuples: the full 4x4x4x4x4x3 cross product is "
+    "enumerated in-process by a single-threaded child (set_var / remove_var / write_global) for Vec, regular file, pty-backed file, "
+    "stdout and stderr, the child being run once on pipes and once on a pty; each observation (AutoStream::choice, auto().current_choice, "
+    "new(global()).current_choice, is_terminal, to_adapted_string, the seven anstyle_query probes) is logged as an event and checked "
+    "offline against the documented decision table; COLORTERM, the clap flag and seeded unusual values (empty, look-alikes, non-UTF-8, "
+    "10 kB) separately; non-trivial = every (environment, stream) decision; distinct = distinct tuples x streams",
+    ["'stream is a terminal' is arranged by the driver (pipe vs pty) and cross-checked with std::io::IsTerminal in the child",
+     "on this (non-Windows) platform the choice Always is served by the pass-through stream, so current_choice() reports AlwaysAnsi for it"],
+    {"run": _c09.run, "replay": _c09.replay, "replay_case": None},
+    exhaustive={"quick": True, "thorough": True},
+)
